@@ -65,8 +65,17 @@ const (
 	fpStore       = "store-differs-from-last-batchwrite"
 )
 
-// caseGuard bounds one run; exceeding it is INCONCLUSIVE, never a verdict.
-const caseGuard = 30 * time.Second
+// caseGuard bounds the time one run may go WITHOUT observable progress (no harness event logged,
+// no writer-side call) before it is given up as INCONCLUSIVE – never a verdict. While progress is
+// observed the run is not stuck (on one core a writer spinning on a 0/1ns time-out can starve the
+// callers for a long time), so the guard is re-armed, up to caseGuardCap in total.
+const (
+	caseGuard    = 30 * time.Second
+	caseGuardCap = 10 * time.Minute
+)
+
+// lowParallelism: fewer than 4 usable CPUs (runtime.NumCPU honours the affinity mask).
+var lowParallelism = runtime.NumCPU() < 4
 
 type caseRec struct {
 	Kind       string `json:"kind"` // gated | enqstop | stress
@@ -146,10 +155,14 @@ type mon struct {
 	emptyLoops atomic.Int64 // store.Batched() calls that directly followed the Cancel of an empty batch
 	lastWK     byte         // last writer-side kind; only touched by the writer goroutine
 	nW, nD     atomic.Int64 // BatchWrite / BatchWriteDone calls
+	hev        atomic.Int64 // caller-side events (Enqueue/Stop/Flush calls and returns, yield points)
 	compacted  int          // empty N/X pairs dropped from the log (a time-out <= 0 makes an idle writer spin)
 }
 
 func (m *mon) log(e ev) {
+	if e.P >= 0 {
+		m.hev.Add(1)
+	}
 	if m.bare {
 		return
 	}
@@ -482,14 +495,23 @@ func closed(ch chan struct{}) bool {
 }
 
 type waiter struct {
-	n     int
-	since time.Time
+	m        *mon // progress source (may be nil)
+	n        int
+	first    time.Time
+	since    time.Time // last observed progress
+	progress int64
 }
 
 // pause is a polling pause; returns false when the per-case guard expired.
 func (w *waiter) pause() bool {
+	now := time.Now()
 	if w.n == 0 {
-		w.since = time.Now()
+		w.first, w.since = now, now
+	}
+	if w.m != nil {
+		if p := w.m.wev.Load() + w.m.hev.Load(); p != w.progress {
+			w.progress, w.since = p, now
+		}
 	}
 	w.n++
 	if w.n < 10 {
@@ -501,7 +523,7 @@ func (w *waiter) pause() bool {
 		}
 		time.Sleep(d)
 	}
-	return time.Since(w.since) < caseGuard
+	return time.Since(w.since) < caseGuard && time.Since(w.first) < caseGuardCap
 }
 
 // Blindness self-check. The keying of "writer" is a property of the build. Every child process
@@ -668,7 +690,7 @@ func inStopWait(g gdump.G) bool {
 //	All rules are evaluated on every poll, so a run that ends in the case guard has tried them all
 //	on its last snapshot and log.
 func (s *scen) finishWait() (ok bool) {
-	var w waiter
+	w := waiter{m: s.m}
 	var idle idleTracker
 	stopHung := false
 	spinBase := int64(-1)
@@ -1156,7 +1178,7 @@ func runGated(c *vf.Ctx, cs *caseRec) ([]string, bool) {
 		return nil, true
 	}
 	st := s.spawn("stopper", 0, nil, func(a *actor) { s.stop(a) })
-	var w waiter
+	w := waiter{m: s.m}
 	for !closed(st.done) {
 		if sg, found := gdump.Find(s.snapshot(), st.gid.Load()); found && inStopWait(sg) {
 			break
@@ -1255,7 +1277,7 @@ func runDupFlush(c *vf.Ctx, cs *caseRec) ([]string, bool) {
 	l0 := s.m.emptyLoops.Load()
 	s.m.log(ev{K: 'F', P: mainA.idx})
 	s.bw.Flush()
-	var w waiter
+	w := waiter{m: s.m}
 	var idle idleTracker
 	served := ""
 	for served == "" {
@@ -1511,8 +1533,17 @@ func genCases(c *vf.Ctx) (plain, race []caseRec) {
 		cs.FlushPct = []int{0, 0, 5, 20}[rng.Intn(4)]
 		cs.JitterPct = []int{0, 10, 40}[rng.Intn(3)]
 		cs.DoubleStop = rng.Intn(8) == 0
+		if lowParallelism && cs.TimeoutNs <= 1 {
+			// a time-out of 0/1ns/negative makes the idle writer spin; with few CPUs it starves the
+			// callers, so these runs are kept short (the random draws above stay the same)
+			cs.Producers = min(cs.Producers, 2)
+			cs.Ops = min(cs.Ops, 8)
+			cs.StopAt = 1 + (cs.StopAt-1)%(cs.Producers*cs.Ops)
+		}
 		return cs
 	}
+	// with few CPUs only every third spinning stress run is kept
+	keep := func(cs caseRec, n int) bool { return !lowParallelism || cs.TimeoutNs > 1 || n%3 == 0 }
 	// plain build
 	for rep := c.Pick(9, 135); rep > 0; rep-- {
 		for _, cf := range cfgs {
@@ -1535,7 +1566,9 @@ func genCases(c *vf.Ctx) (plain, race []caseRec) {
 		}
 	}
 	for n := c.Pick(1000, 9000); n > 0; n-- {
-		plain = append(plain, stress())
+		if cs := stress(); keep(cs, n) {
+			plain = append(plain, cs)
+		}
 	}
 	// -race build
 	asRace := func(cs caseRec, bare bool) caseRec { cs.Race, cs.Bare = true, bare; return cs }
@@ -1547,7 +1580,9 @@ func genCases(c *vf.Ctx) (plain, race []caseRec) {
 		}
 	}
 	for n := c.Pick(800, 9000); n > 0; n-- {
-		race = append(race, asRace(stress(), n%3 == 0))
+		if cs := stress(); keep(cs, n) {
+			race = append(race, asRace(cs, n%3 == 0))
+		}
 	}
 	return
 }
@@ -1741,30 +1776,43 @@ func run(c *vf.Ctx) {
 		jobs = append(jobs, job{sh, false})
 	}
 	workers := runtime.NumCPU() * 3 / 4
-	if workers < 2 {
-		workers = 2
+	if workers < 1 {
+		workers = 1
 	}
 	timeout := time.Duration(c.Pick(8, 40)) * time.Minute
+	if lowParallelism {
+		timeout *= 4
+	}
+	c.Extra("usable_cpus", runtime.NumCPU())
 	vf.Parallel(len(jobs), workers, func(i int) {
 		runShard(c, "batch", jobs[i].cases, jobs[i].race, timeout)
 	})
 	c.Require("evaluations", int(float64(len(plain)+len(race))*0.95))
+	// minimums that depend on real overlap between goroutines or on the number of stress runs scale
+	// with the parallelism the machine offers: min(NumCPU,4)/4, never below a small positive floor
+	par := func(n int) int {
+		k := min(runtime.NumCPU(), 4)
+		return max(n*k/4/2, 20) // /2: with few CPUs two thirds of the spinning stress runs are dropped as well
+	}
+	if !lowParallelism {
+		par = func(n int) int { return n }
+	}
 	c.Require("gated_windows_entered", c.Pick(1500, 20000))
-	c.Require("enqueues_overlapping_stop", c.Pick(1000, 9000))
-	c.Require("enqueues_returned_before_stop_checked", c.Pick(5000, 60000))
+	c.Require("enqueues_overlapping_stop", par(c.Pick(1000, 9000)))
+	c.Require("enqueues_returned_before_stop_checked", par(c.Pick(5000, 60000)))
 	c.Require("batches_full_size_trigger", 100)
 	c.Require("batches_partial_timeout_certain", 100)
-	c.Require("flush_calls", 100)
-	c.Require("runs_stress", c.Pick(1700, 17000))
+	c.Require("flush_calls", par(100))
+	c.Require("runs_stress", par(c.Pick(1700, 17000)))
 	c.Require("dupflush_windows_entered", c.Pick(200, 3000))
-	c.Require("writer_probes_seen", c.Pick(3000, 40000)) // blindness self-check: the rules did identify writer goroutines
+	c.Require("writer_probes_seen", par(c.Pick(3000, 40000))) // blindness self-check: the rules did identify writer goroutines
 	for _, t := range timeouts {
 		c.Require("runs_gated_timeout="+t.String(), c.Pick(250, 3500))
 		c.Require("runs_enqstop_timeout="+t.String(), c.Pick(100, 1500))
-		c.Require("runs_stress_timeout="+t.String(), c.Pick(250, 2500))
+		c.Require("runs_stress_timeout="+t.String(), par(c.Pick(250, 2500)))
 	}
-	c.Require("runs_batch_larger_than_objects", c.Pick(700, 8000))
-	c.Require("runs_queue_large", c.Pick(700, 8000))
+	c.Require("runs_batch_larger_than_objects", par(c.Pick(700, 8000)))
+	c.Require("runs_queue_large", par(c.Pick(700, 8000)))
 	c.Assume("runtime.Stack(all) snapshots are consistent (stop-the-world); only the writer goroutine (any goroutine of package kvstore not created by the harness) receives from batchQueue and calls writeWg.Done, and autoStartOnce prevents a second writer goroutine – which makes the two permanence rules sound")
 	c.Assume("mapdb (the backing store) commits a batch atomically and reads back what was committed")
 }
